@@ -57,7 +57,7 @@ func init() {
 		ID:        "C06",
 		Level:     "exploration",
 		Technique: "range/outcome monitor on every commit and on the node's request log over an exhaustive (start, stop, batch, concurrency, prior position) grid with restarts and head growth; reference projection at the end",
-		Rule: fmt.Sprintf("grid: start ∈ %v × stop ∈ %v × batch ∈ %v × concurrency ∈ %v × prior position ∈ %v (= %d combinations, all run; ×3 indexing modes in thorough), each with a history of steps, head growth and restarts; plus random ranges/histories; plus shared-client cases: a bounded integration next to an unbounded one on the same source client (shared segment cache), optionally depending on it through a filter reference, the unbounded one running ahead. "+
+		Rule: fmt.Sprintf("grid: start ∈ %v × stop ∈ %v × batch ∈ %v × concurrency ∈ %v × prior position ∈ %v (= %d combinations, all run; ×3 indexing modes in thorough), each with a history of steps, head growth and restarts; plus random ranges/histories; plus shared-client cases: a bounded integration next to an unbounded one on the same source client (shared segment cache), optionally depending on it through a filter reference, the unbounded one running ahead, and a third integration without a configured start that takes its first turn late (after the head was looked up for the others and the chain moved on: it must begin at the current head); a third of the grid/random scenarios is repeated with the commit of one step's writing transaction failing (error, connection lost before or after it took effect) while the process keeps running: the next step must resume from the position the database holds. "+
 			"signature = (start kind, stop kind, prior kind, batch, concurrency, outcome class); trivial = nothing was ever written and no completion reported.", c06Starts, c06Stops, c06Batches, c06Concs, c06Priors, c06GridSize()),
 		Assumptions: []string{
 			"a prior recorded position lies inside the configured range or above the stop (a position below the configured start is a contradictory configuration the statement does not rank)",
@@ -72,7 +72,7 @@ func init() {
 		CaseTimeoutS:     300,
 		Exhaustive:       func(string) bool { return false },
 		MinObs: func(tier string) map[string]int64 {
-			return map[string]int64{"runs": 600, "done_reported": 150, "commits_range_checked": 1000, "resume_checked": 800, "restarts": 500, "final_verdicts": 300}
+			return map[string]int64{"runs": 600, "done_reported": 150, "commits_range_checked": 1000, "resume_checked": 800, "restarts": 500, "final_verdicts": 300, "commit_faults_hit": 100, "late_first_turns_without_start": 40}
 		},
 		Extra: func(string) map[string]any {
 			return map[string]any{"grid_exhaustive": true, "grid_size": c06GridSize()}
@@ -187,6 +187,7 @@ type c06Mon struct {
 	lowest  uint64 // lowest block allowed (0 = not known yet: no start configured and nothing fetched)
 	wrote   bool
 	outcome string
+	kp      string
 }
 
 func lowestDataBlock(served []simnode.Served) (uint64, bool) {
@@ -233,7 +234,7 @@ func (m *c06Mon) onStep(idx int, res *scen.StepResult, pm *pairMon, before, afte
 	c := m.c
 	start, stop := uint64(m.ps.StartAbs), m.ps.Stop
 	detail := map[string]any{"params": m.describe(), "scenario": m.ps.Describe(), "step": idx, "err": fmt.Sprint(res.Err)}
-	key := func(k string) string { return k + ":prior=" + m.p.priorK }
+	key := func(k string) string { return m.kp + k + ":prior=" + m.p.priorK }
 	pos, hasPos := before.position()
 	// (3) resume / begin
 	if lo, ok := lowestDataBlock(res.Served); ok {
@@ -350,6 +351,12 @@ func c06One(c *vk.Case, p *c06Params) {
 	if len(c.Res.Violations) > nv {
 		return
 	}
+	if fr := vk.NewRNG(p.seed ^ 0xfa17); fr.Chance(1, 3) {
+		c06CommitFault(c, fr, p, ps, run)
+		if len(c.Res.Violations) > nv {
+			return
+		}
+	}
 	detail := map[string]any{"params": m.describe(), "scenario": ps.Describe(), "config": run.ConfJSON, "trace": lastN(run.Trace, 40), "last_error": run.LastErr}
 	head := run.Head
 	start, stop := uint64(ps.StartAbs), ps.Stop
@@ -405,6 +412,44 @@ func c06One(c *vk.Case, p *c06Params) {
 	c.SetSig("start=%s stop=%s prior=%s b=%d c=%d -> %s", p.startK, p.stopK, p.priorK, p.batch, p.conc, m.outcome)
 }
 
+// c06CommitFault repeats the scenario with the commit of one step's writing
+// transaction failing (error, connection lost before it, or lost after it took
+// effect) while the process keeps running: the following step must resume from
+// the position the database holds, and the range rules hold as before.
+func c06CommitFault(c *vk.Case, r *vk.RNG, p *c06Params, ps *pipeScenario, base *pipeRun) {
+	var cands []*faultSpec
+	for _, sr := range base.Steps {
+		if sr.Err != nil || !sr.HasPos {
+			continue
+		}
+		ord := -1
+		for _, op := range sr.SQLOps {
+			if op.Kind == "commit" {
+				ord = op.Ordinal
+			}
+		}
+		if ord >= 0 {
+			cands = append(cands, &faultSpec{Step: sr.Idx, SQLOrd: ord})
+		}
+	}
+	if len(cands) == 0 {
+		return
+	}
+	f := vk.Pick(r, cands)
+	f.Kind = vk.Pick(r, []string{"error", "drop-before", "drop-after"})
+	m := &c06Mon{c: c, p: p, ps: ps, kp: "commit-fault:"}
+	final := ps.Prior < 0 || ps.Stop == 0 || uint64(ps.Prior) < ps.Stop
+	run := ps.run(c, runOpts{Snapshots: true, KP: "commit-fault:", Fault: f, OnStep: m.onStep, FinalVerdict: final, MaxQuiet: 60})
+	if run == nil {
+		return
+	}
+	c.Obs("commit_fault_runs", 1)
+	if run.FaultHit {
+		c.Obs("commit_faults_hit:"+f.Kind, 1)
+		c.Obs("commit_faults_hit", 1)
+	}
+}
+
 // c06SharedCase: a bounded integration next to an unbounded one on the same
 // source client (shared segment cache), optionally depending on it through a
 // filter reference. The unbounded one always runs first in a round.
@@ -427,6 +472,12 @@ func c06SharedCase(c *vk.Case) {
 	if withDep {
 		b.Block[0].Filter = model.Filter{Op: "contains", Ref: &model.Ref{Integration: a.Name, Column: "who"}}
 	}
+	// a third integration without a configured start takes its first turn late, after the source's head has
+	// been looked up for the others and the chain has moved on: it begins at the source's current head
+	z := &model.Decl{Name: namePoolIG[2], Enabled: true, Table: namePoolTbl[2], ColTypes: map[string]string{}, InFilter: map[string]model.Filter{}}
+	z.Sources = []model.SrcRef{{Name: namePoolSrc[0]}}
+	z.Block = []model.BlockField{{Name: "tx_hash", Column: "tx_hash", ColType: "bytea"}}
+	lateRound := r.Range(1, 2)
 	seed := r.U64()
 	inner := gen.Content(gen.ChainOpts{Seed: seed, MinTxs: 1, MaxTxs: 3})
 	chain := simnode.NewChain(nextChainID(), func(bl *simnode.Block) {
@@ -439,7 +490,7 @@ func c06SharedCase(c *vk.Case) {
 	})
 	chain.Grow(int(stop) + r.Range(3, 12))
 	node := simnode.Global().NewNode(chain)
-	spec := &scen.Spec{Sources: []scen.SourceSpec{{Name: namePoolSrc[0], ChainID: 3, Batch: batch, Concurrency: vk.Pick(r, []int{1, 2}), Poll: "1h", Node: node}}, Decls: []*model.Decl{a, b}}
+	spec := &scen.Spec{Sources: []scen.SourceSpec{{Name: namePoolSrc[0], ChainID: 3, Batch: batch, Concurrency: vk.Pick(r, []int{1, 2}), Poll: "1h", Node: node}}, Decls: []*model.Decl{a, b, z}}
 	me := newMultiEnv(c, spec, "shared:")
 	if me == nil {
 		return
@@ -449,12 +500,15 @@ func c06SharedCase(c *vk.Case) {
 		c.Violate("shared:setup-rejected", map[string]any{"config": string(me.env.ConfJSON), "error": me.env.SetupErr.Error()}, "configuration rejected: %v", me.env.SetupErr)
 		return
 	}
-	var pa, pb *mPair
+	var pa, pb, pz *mPair
 	for _, p := range me.pairs {
-		if p.ig == a.Name {
+		switch p.ig {
+		case a.Name:
 			pa = p
-		} else {
+		case b.Name:
 			pb = p
+		default:
+			pz = p
 		}
 	}
 	pb.pm.noContent = withDep
@@ -466,6 +520,36 @@ func c06SharedCase(c *vk.Case) {
 		// the unbounded integration runs ahead (and fills the segment cache), then the bounded one
 		for k := 0; k < r.Range(1, 3); k++ {
 			me.stepSeq(pa, false)
+		}
+		if round == lateRound {
+			chain.Grow(r.Range(1, 3))
+			head := chain.Head().Num
+			zres := me.stepSeq(pz, false)
+			c.Obs("late_first_turns_without_start", 1)
+			for _, rec := range zres.Commits {
+				if rec.Aborted || len(rec.Tx.Effects) == 0 {
+					continue
+				}
+				dc := pz.pm.classify(rec)
+				lowest := ^uint64(0)
+				for _, row := range dc.rowsIns {
+					if n, ok := rowBlockNum(dc.tbl, row); ok && n < lowest {
+						lowest = n
+					}
+				}
+				for _, cr := range dc.cursorIns {
+					if cr.num < lowest {
+						lowest = cr.num
+					}
+				}
+				if lowest < head {
+					c.Violate("shared:began-below-current-head", merge(detail(), map[string]any{"lowest_block_written": lowest, "head": head}),
+						"an integration without a configured start and without a recorded position wrote block %d on its first turn while the source's head was %d", lowest, head)
+				}
+			}
+			if zpos, ok := pz.pm.captureLive().position(); zres.Err == nil && (!ok || zpos != head) {
+				c.Violate("shared:first-turn-did-not-reach-head", merge(detail(), map[string]any{"position": zpos, "head": head}), "first turn without a configured start ended at position %d (recorded: %v), head %d", zpos, ok, head)
+			}
 		}
 		posBefore, hadPos := pb.pm.captureLive().position()
 		res := me.env.Step(pb.task)
